@@ -4,3 +4,4 @@ open LhasaV.Props.C05
 #print axioms header_roundtrip
 #print axioms header_roundtrip_ok
 #print axioms level1_compressed_size
+#print axioms os9_permissions_match_source
